@@ -70,7 +70,7 @@ def case_strategy(draw):
     depth = draw(st.sampled_from([0, 0, 1, 2]))
     colls = [draw(gen.pose_path(max_len=1, extent=2.0)) for _ in range(depth)]
     sens_ori = draw(gen.quaternion())
-    return {"source": spec, "observers": pts, "obs_kind": okind, "Q": q, "t": t, "collections": colls,
+    return {"source": spec, "observers": pts, "obs_kind": okind, "Q": q, "t": t, "collections": colls, "setter_order": draw(st.integers(0, 1)),
             "sensor_orientation": sens_ori, "handedness": draw(st.sampled_from(["right", "right", "left"])),
             "field": draw(st.sampled_from(["B", "H", "B", "H", "J"]))}
 
@@ -258,6 +258,40 @@ def run_case(case, ctx):
                 out.append(Violation({"sub": "call_raised", "variant": "ops_own_anchor", "cls": cls, **exc_sig(rC.exc)}, repr(rC.exc)[:200]))
             else:
                 compare("ops_own_anchor", np.asarray(rC.value))
+
+    # (D) the pose setters of the holder (the object itself or the top collection): position = Q p + t and
+    #     orientation = Q R.  For a collection the setters carry the children along (rotation about the collection's
+    #     own position, translation by the change of position), which composes to the same rigid motion x -> Q x + t
+    srcD = build.build_source(spec)
+    topD = srcD
+    for pp in case["collections"]:
+        c = magpy.Collection(topD)
+        c._position = np.asarray(pp["position"], dtype=float)  # pylint: disable=protected-access
+        c._orientation = R.from_quat(np.asarray(pp["orientation"], dtype=float))  # pylint: disable=protected-access
+        topD = c
+
+    def _set_pose():
+        if case.get("setter_order", 0) == 0:
+            topD.position = Q.apply(np.atleast_2d(topD.position)) + t
+            topD.orientation = Q * topD.orientation
+        else:
+            topD.orientation = Q * topD.orientation
+            topD.position = Q.apply(np.atleast_2d(topD.position)) + t
+
+    # (a collection setter assigns the collection's path length to its members, so the variant is only a rigid motion
+    #  when the holder is the object itself or everything is static)
+    applicable = not case["collections"] or len(spec["position"]) == 1
+    rd = build.call(_set_pose) if applicable else None
+    if rd is None:
+        pass
+    elif not rd.ok:
+        out.append(Violation({"sub": "call_raised", "variant": "setters", "cls": cls, **exc_sig(rd.exc)}, repr(rd.exc)[:200]))
+    else:
+        rD = build.call(fn, srcD, _observers(case, True, "assign"), squeeze=False)
+        if not rD.ok:
+            out.append(Violation({"sub": "call_raised", "variant": "setters", "cls": cls, **exc_sig(rD.exc)}, repr(rD.exc)[:200]))
+        else:
+            compare("setters", np.asarray(rD.value))
 
     q = np.abs(np.asarray(case["Q"], dtype=float))
     generic_q = not (np.any(np.isclose(q, 1.0, atol=1e-6)) or np.allclose(np.sort(q)[-2:], np.sqrt(0.5), atol=1e-6))
